@@ -249,6 +249,9 @@ class Session(Thread):
                             self.logger.debug('switching from sax to dom parsing')
                             self.parser = ncclient.transport.parser.DefaultXMLParser(self)
                             self.parser.parse(data)
+                    elif data is None:
+                        # woken up, but not by data of the session
+                        pass
                     elif self._closing.is_set():
                         # End of session, expected
                         break
